@@ -41,8 +41,6 @@ func run(e *harness.Env) {
 	dir := harness.Scratch()
 	defer os.RemoveAll(dir)
 	c := &checker{e: e, dir: dir}
-	stop := startProf()
-	defer stop()
 	c.spaceA()
 	c.spaceA2()
 	c.spaceB()
@@ -364,9 +362,6 @@ func (c *checker) clauses(dc docCase, ob *observed, report func(desc string, ok 
 			nExcl[m] = len(all) - len(kept)
 			if ob.ref.ambig && m == 3 {
 				c.e.Add("ambiguous_density_documents", 1)
-				if os.Getenv("C19_DEBUG") != "" {
-					fmt.Fprintln(os.Stderr, "AMBIG", dc.desc)
-				}
 			}
 		}
 		if dry {
